@@ -31,7 +31,8 @@ def worker(case, led):
         model, terms, sectors = Dn.hamiltonian(name, n, rng)
         H = Mpo(model, terms)
         Hd = Dn.dense_h(model, terms)
-        for q in sectors[1:3] if len(sectors) > 2 else sectors[:1]:
+        # (long chains: the half-filled sector, whose middle bonds reach the limit - that is what takes the local problem over the 1000-amplitude switch)
+        for q in ([sectors[len(sectors) // 2]] if n >= 10 else (sectors[1:3] if len(sectors) > 2 else sectors[:1])):
             mask = S.sector_mask(model, q)
             lam = sector_spectrum(Hd, mask)
             if len(lam) < nroots:
@@ -65,6 +66,10 @@ def worker(case, led):
                     mps = cand
             else:
                 mps = mps.scale(3.0)
+            if H.is_complex and not mps.is_complex:
+                # precondition of the optimiser: a complex Hamiltonian needs a complex guess (with a real one the library stops with an assertion when it stores
+                # the first complex eigenvector - loud, not a wrong result)
+                mps = mps.to_complex()
             full = M is None
             Mv = 32 if full else M
             mps.optimize_config.procedure = [[Mv, 0.4], [Mv, 0.2], [Mv, 0.0], [Mv, 0.0], [Mv, 0.0]]
@@ -171,6 +176,10 @@ def check(run):
                             continue
                         cases.append(("chain", name, n, method, nroots, M, s, run.tier))
             cases.append(("omega", name, n, s, run.tier))
+        # local problems with >= 1000 amplitudes (bond 16 x 2 x 2 x 16): the sweep switches from the dense local solver to the iterative one (Davidson with the
+        # matrix-free product); complex Hermitian Hamiltonian, one and several roots
+        for nroots in (1, 3):
+            cases.append(("chain", "spinqn-flux", 10, "2site", nroots, 16, s, run.tier))
     run_cases(run, worker, cases)
     from props import C08_sym
     guarded(run, C08_sym.prove)
